@@ -1,5 +1,33 @@
-import SigModel.Model.Bus
-import SigModel.Spec.Bus
+/-
+C20 — the event bus delivers per subject in order to exactly the registered listeners.
+
+Model: `Model/Bus.lean` (small-step; every interleaving of the critical sections of async_events.go,
+async_events_nats.go, natsclient_loopback.go is an execution `Reach`).  Spec: `Spec/Bus.lean` (`admits`).
+Invariants: `Lemmas/Bus.lean`.
+
+For every execution:
+  * `C20_no_duplicates`            no listener is handed a message twice (also across leaving and joining again);
+  * `C20_only_while_registered`    every callback is backed by a registration of that listener on the message's
+                                   subject, and the message was published before every later unregistration;
+    `C20_other_subjects`, `C20_nothing_after_unregister`  the two readings the statement names;
+  * `C20_order_partial`            per listener and subject callbacks come in publication order — if no callback
+                                   was entered for a listener removed in the meantime (`stale = 0`);
+    `C20_order_prompt`             in particular when the callback is entered right after the check;
+    `C20_order_counterexample`     without that the statement is false of the code as it is (a chosen callback can
+                                   be overtaken through a second subscriber after leave + join);
+  * `C20_conservation`             a message published after a registration completed is, for a listener that
+                                   stayed registered and below the slow-consumer threshold, in `incoming`, being
+                                   sent, queued, in flight for that listener, or delivered;
+    `C20_delivery_partial`         hence delivered at quiescence;
+    `C20_delivery_counterexample`  "… and before unregistration began" is false for an asynchronous bus: a message
+                                   still queued when the listener unregisters is dropped for it;
+  * `C20_publish_never_blocks`, `C20_register_never_blocks`, `C20_dispatcher_never_blocked`, `C20_progress`
+                                   nobody waits for a consumer; quiescence is the only state without an enabled
+                                   internal action;
+  * `C20_admits_partial`, `C20_admits_widen`, `C20_admits_recorded`  every recorded history of such an execution
+                                   satisfies the executable spec `admits` the driver judges the implementation with.
+-/
+import SigModel.Lemmas.Bus
 
 namespace SigModel.Bus
 open SigModel.Generated.Bus
@@ -12,5 +40,604 @@ theorem C20_facts :
     (registerAtomicBackendRoom && registerAtomicRoom && registerAtomicUser && registerAtomicSession) = true ∧
     (addUnderLockBackendRoom && addUnderLockRoom && addUnderLockUser && addUnderLockSession) = true := by
   decide
+
+/-- Subjects of different kinds never coincide: no prefix is a prefix of another (the suffix is base64 for
+room / user / backend-room subjects; session ids are appended verbatim). -/
+theorem C20_subject_kinds_disjoint :
+    let ps := [subjectPrefixBackendRoom, subjectPrefixRoom, subjectPrefixUser, subjectPrefixSession]
+    (ps.all fun a => ps.all fun b => a == b || !(a.toList.isPrefixOf b.toList)) = true ∧
+    (subjectHasBackendBackendRoom && subjectHasBackendRoom && subjectHasBackendUser && subjectSuffixBase64) = true := by
+  decide
+
+theorem C20_no_duplicates {st : State} (h : Reach st) (l : Nat) : (st.received l).Nodup := by
+  have nd := h.inv.nd
+  unfold ND at nd
+  unfold State.received
+  rw [List.Nodup, List.pairwise_map]
+  have := nd.filter (fun r => decide (r.l = l))
+  refine List.Pairwise.imp_of_mem ?_ this
+  intro r r' hr hr' hrel e
+  simp only [List.mem_filter, decide_eq_true_eq] at hr hr'
+  exact hrel ⟨hr.2.trans hr'.2.symm, e⟩
+
+theorem C20_order_partial {st : State} (h : Reach st) (hs : st.stale = 0) (l s : Nat) :
+    (st.receivedOn l s).Pairwise (· < ·) := by
+  have od := h.inv.od hs
+  unfold State.receivedOn State.received
+  have h1 := od.filter (fun r => decide (r.l = l))
+  have h2 : ((st.recvs.filter fun r => decide (r.l = l)).map (·.i)).Pairwise
+      (fun i i' => st.subjOf i = st.subjOf i' → i < i') := by
+    rw [List.pairwise_map]
+    refine List.Pairwise.imp_of_mem ?_ h1
+    intro r r' hr hr' hrel
+    simp only [List.mem_filter, decide_eq_true_eq] at hr hr'
+    exact hrel (hr.2.trans hr'.2.symm)
+  have h3 := h2.filter (fun i => decide (st.subjOf i = some s))
+  refine List.Pairwise.imp_of_mem ?_ h3
+  intro i i' hi hi' hrel
+  simp only [List.mem_filter, decide_eq_true_eq] at hi hi'
+  exact hrel (hi.2.trans hi'.2.symm)
+
+theorem C20_order_prompt {st : State} (h : ReachP st) (l s : Nat) : (st.receivedOn l s).Pairwise (· < ·) :=
+  C20_order_partial h.reach.1 h.reach.2.1 l s
+
+theorem C20_only_while_registered {st : State} (h : Reach st) {r : RecvEv} (hr : r ∈ st.recvs) :
+    ∃ p R, st.log[r.i]? = some p ∧ p.t < r.t ∧ R ∈ st.regs ∧ R.l = r.l ∧ R.s = p.s ∧ R.t < r.t ∧
+      ∀ U, U ∈ st.unregs → U.l = r.l → U.s = p.s → R.t < U.t → p.t < U.t := by
+  obtain ⟨p, R, a, b, c, d, e, f, g⟩ := h.inv.rg.recv_reg r hr
+  exact ⟨p, R, a, b, c, d, e, f, fun U hU e1 e2 => g U hU (e1.trans d.symm) (e2.trans e.symm)⟩
+
+theorem mem_received {st : State} {l i : Nat} : i ∈ st.received l ↔ ∃ r, r ∈ st.recvs ∧ r.l = l ∧ r.i = i := by
+  simp [State.received, List.mem_map, List.mem_filter, and_assoc]
+
+theorem C20_other_subjects {st : State} (h : Reach st) (l s : Nat)
+    (hnever : ∀ R, R ∈ st.regs → ¬(R.l = l ∧ R.s = s)) : st.receivedOn l s = [] := by
+  rw [List.eq_nil_iff_forall_not_mem]
+  intro i hi
+  simp only [State.receivedOn, List.mem_filter, decide_eq_true_eq] at hi
+  obtain ⟨r, hr, e1, e2⟩ := mem_received.mp hi.1
+  obtain ⟨p, R, a, _, c, d, e, _, _⟩ := C20_only_while_registered h hr
+  apply hnever R c
+  refine ⟨d.trans e1, ?_⟩
+  have := hi.2
+  rw [← e2, State.subjOf, a] at this
+  simp only [Option.map_some, Option.some.injEq] at this
+  exact e.trans this
+
+theorem C20_nothing_after_unregister {st : State} (h : Reach st) {U : CallEv} (hU : U ∈ st.unregs)
+    (hlast : ∀ R, R ∈ st.regs → R.l = U.l → R.s = U.s → R.t < U.t)
+    {i : Nat} {p : PubEv} (hp : st.log[i]? = some p) (hs : p.s = U.s) (hafter : U.t < p.t) :
+    i ∉ st.received U.l := by
+  intro hi
+  obtain ⟨r, hr, e1, e2⟩ := mem_received.mp hi
+  obtain ⟨p', R, a, _, c, d, e, _, g⟩ := C20_only_while_registered h hr
+  rw [e2, hp] at a; cases a
+  have := g U hU e1.symm hs.symm (hlast R c (d.trans e1) (e.trans hs))
+  omega
+
+theorem C20_conservation {st : State} (h : Reach st) (hd : st.dropped = false) {R : CallEv} (hR : R ∈ st.regs)
+    (hS : Stays st R) {i : Nat} {p : PubEv} (hp : st.log[i]? = some p) (hs : p.s = R.s) (ht : R.t < p.t) :
+    ∃ k, st.active R.s = some k ∧ R.l ∈ (st.sub k).listeners ∧ Where st k R.l i := by
+  obtain ⟨k, a, b⟩ := h.inv.cv.stays_active R hR hS
+  exact ⟨k, a, b, h.inv.cv.cons hd R hR hS i p hp hs ht k a⟩
+
+theorem C20_delivery_partial {st : State} (h : Reach st) (hq : Quiescent st) (hd : st.dropped = false)
+    {R : CallEv} (hR : R ∈ st.regs) (hS : Stays st R) {i : Nat} {p : PubEv} (hp : st.log[i]? = some p)
+    (hs : p.s = R.s) (ht : R.t < p.t) : i ∈ st.received R.l := by
+  obtain ⟨k, a, b, hw⟩ := C20_conservation h hd hR hS hp hs ht
+  obtain ⟨q1, q2, q3⟩ := hq
+  have w := h.inv.wf
+  have hk := w.act_lt _ k a
+  have hopen := (w.act_subj _ k a).2.1
+  have hatt : (st.sub k).attached = true := by
+    cases hatt : (st.sub k).attached with
+    | true => rfl
+    | false => have := (w.subok k hk).detached_closed hatt; rw [hopen] at this; cases this
+  obtain ⟨c1, c2⟩ := q3 k hk hatt
+  have hi : i < st.log.length := by
+    rcases Nat.lt_or_ge i st.log.length with g | g
+    · exact g
+    · rw [List.getElem?_eq_none g] at hp; cases hp
+  rcases hw with g | g | g | g | g
+  · omega
+  · rw [q2] at g; cases g.2
+  · rw [c1] at g; cases g
+  · rw [c2] at g; cases g.1
+  · exact mem_received.mpr g
+
+/-! ### nobody waits -/
+
+theorem C20_publish_never_blocks (st : State) (s : Nat) : ∃ st', step st (.publish s) = some st' := ⟨_, rfl⟩
+
+theorem C20_register_never_blocks (st : State) (l s : Nat) :
+    (∃ st', step st (.register l s) = some st') ∧ (∃ st', step st (.unregister l s) = some st') := ⟨⟨_, rfl⟩, ⟨_, rfl⟩⟩
+
+/-- The dispatcher of the loopback client always has an enabled step while something is queued: a full
+channel (slow consumer) makes it drop the message, never wait. -/
+theorem C20_dispatcher_never_blocked (st : State) (hin : st.disp < st.log.length ∨ st.sending ≠ []) :
+    (∃ st', step st .dispatch = some st') ∨ (∃ st', step st .send = some st') := by
+  by_cases hs : st.sending = []
+  · left
+    rcases hin with g | g
+    · simp only [step, dispatch, hs, if_true]
+      rw [List.getElem?_eq_getElem g]
+      exact ⟨_, rfl⟩
+    · exact absurd hs g
+  · right
+    simp only [step, send]
+    cases hsd : st.sending with
+    | nil => exact absurd hsd hs
+    | cons k rest =>
+      simp only
+      split
+      · exact ⟨_, rfl⟩
+      · simp only [sendNonBlocking_true, if_true]; exact ⟨_, rfl⟩
+
+def Act.internal : Act → Bool
+  | .publish _ | .register _ _ | .unregister _ _ => false
+  | _ => true
+
+/-- Quiescence is exactly "no internal action enabled": in every other reachable state some goroutine can
+move (no deadlock between dispatcher, receivers, registration and publication). -/
+theorem C20_progress {st : State} (h : Reach st) (hq : ¬ Quiescent st) :
+    ∃ a st', a.internal = true ∧ step st a = some st' := by
+  have w := h.inv.wf
+  by_cases h1 : st.disp < st.log.length ∨ st.sending ≠ []
+  · rcases C20_dispatcher_never_blocked st h1 with ⟨st', e⟩ | ⟨st', e⟩
+    · exact ⟨_, st', rfl, e⟩
+    · exact ⟨_, st', rfl, e⟩
+  · have hd : st.disp = st.log.length := by have := w.disp_le; omega
+    have hs : st.sending = [] := by
+      cases hsd : st.sending with
+      | nil => rfl
+      | cons a b => exact absurd (Or.inr (by simp [hsd])) h1
+    have : ∃ k, k < st.nsubs ∧ (st.sub k).attached = true ∧ ¬((st.sub k).chan = [] ∧ (st.sub k).cur = none) := by
+      apply Classical.byContradiction
+      intro hn
+      apply hq
+      refine ⟨hd, hs, ?_⟩
+      intro k hk ha
+      apply Classical.byContradiction
+      intro hc
+      exact hn ⟨k, hk, ha, hc⟩
+    obtain ⟨k, hk, ha, hne⟩ := this
+    have ok := w.subok k hk
+    cases hc : (st.sub k).cur with
+    | none =>
+      cases hch : (st.sub k).chan with
+      | nil => exact absurd ⟨hch, hc⟩ hne
+      | cons i rest =>
+        have : ∃ st', step st (.take k) = some st' := by
+          simp only [step, take, hk, ha, hc, hch, and_self, if_true]; exact ⟨_, rfl⟩
+        obtain ⟨st', e⟩ := this
+        exact ⟨_, st', rfl, e⟩
+    | some i =>
+      cases hsn : (st.sub k).snapped with
+      | false =>
+        have : ∃ st', step st (.snap k) = some st' := by
+          simp only [step, snap, hk, hc, hsn, Option.isSome_some, and_self, if_true]; exact ⟨_, rfl⟩
+        obtain ⟨st', e⟩ := this
+        exact ⟨_, st', rfl, e⟩
+      | true =>
+        cases hp : (st.sub k).pending with
+        | some l =>
+          have : ∃ st', step st (.call k) = some st' := by
+            simp only [step, call, hk, hp, hc, if_true]; exact ⟨_, rfl⟩
+          obtain ⟨st', e⟩ := this
+          exact ⟨_, st', rfl, e⟩
+        | none =>
+          cases ht : (st.sub k).tovisit with
+          | cons l rest =>
+            have : ∃ st', step st (.pick k l) = some st' := by
+              simp only [step, pick, hk, hsn, hp, ht, List.mem_cons, true_or, and_self, if_true]; exact ⟨_, rfl⟩
+            obtain ⟨st', e⟩ := this
+            exact ⟨_, st', rfl, e⟩
+          | nil =>
+            have : ∃ st', step st (.finish k) = some st' := by
+              simp only [step, finish, hk, hc, hsn, ht, hp, Option.isSome_some, and_self, if_true]; exact ⟨_, rfl⟩
+            obtain ⟨st', e⟩ := this
+            exact ⟨_, st', rfl, e⟩
+
+
+/-! ### the recorded history of an execution -/
+
+
+/-- The history an observer records when every call is stamped exactly at its critical section. -/
+def histOf (st : State) : Hist where
+  regs := st.regs.map fun e => { l := e.l, s := e.s, ts := e.t, te := e.t }
+  unregs := st.unregs.map fun e => { l := e.l, s := e.s, ts := e.t, te := e.t }
+  pubs := (List.range st.log.length).filterMap fun i =>
+    (st.log[i]?).map fun p => { s := p.s, idx := i, ts := p.t, te := p.t }
+  recvs := st.recvs.map fun r => { l := r.l, idx := r.i, s := (st.subjOf r.i).getD 0, t := r.t }
+
+theorem mem_histOf_pubs {st : State} {P : HPub} :
+    P ∈ (histOf st).pubs ↔ ∃ p, st.log[P.idx]? = some p ∧ P = { s := p.s, idx := P.idx, ts := p.t, te := p.t } := by
+  simp only [histOf, List.mem_filterMap, List.mem_range, Option.map_eq_some_iff]
+  constructor
+  · rintro ⟨i, _, p, hp, rfl⟩
+    exact ⟨p, hp, rfl⟩
+  · rintro ⟨p, hp, e⟩
+    refine ⟨P.idx, ?_, p, hp, e.symm⟩
+    rcases Nat.lt_or_ge P.idx st.log.length with g | g
+    · exact g
+    · rw [List.getElem?_eq_none g] at hp; cases hp
+
+theorem pairwise_mem_cases {α : Type} {R : α → α → Prop} {l : List α} (h : l.Pairwise R) {x y : α}
+    (hx : x ∈ l) (hy : y ∈ l) : x = y ∨ R x y ∨ R y x := by
+  induction l with
+  | nil => cases hx
+  | cons a l ih =>
+    rw [List.pairwise_cons] at h
+    simp only [List.mem_cons] at hx hy
+    rcases hx with rfl | hx <;> rcases hy with rfl | hy
+    · left; rfl
+    · right; left; exact h.1 y hy
+    · right; right; exact h.1 x hx
+    · exact ih h.2 hx hy
+
+theorem log_mono {st : State} (t : TM st) {i j : Nat} {p q : PubEv} (hp : st.log[i]? = some p)
+    (hq : st.log[j]? = some q) (hij : i < j) : p.t < q.t := by
+  have := t.log_sorted
+  rw [List.pairwise_iff_getElem] at this
+  obtain ⟨hi, rfl⟩ := List.getElem?_eq_some_iff.mp hp
+  obtain ⟨hj, rfl⟩ := List.getElem?_eq_some_iff.mp hq
+  exact this i j hi hj hij
+
+
+theorem okP_histOf {st : State} (h : Reach st) : okP (histOf st) = true := by
+  have t := h.inv.tm
+  simp only [okP, List.all_eq_true, Bool.and_eq_true, decide_eq_true_eq]
+  intro P hP Q hQ
+  obtain ⟨p, hp, eP⟩ := mem_histOf_pubs.mp hP
+  obtain ⟨q, hq, eQ⟩ := mem_histOf_pubs.mp hQ
+  refine ⟨?_, ?_⟩
+  · intro e
+    rw [e, hq] at hp; cases hp
+    rw [eP, eQ, e]
+  · intro hlt
+    rw [eP, eQ] at hlt
+    simp only at hlt
+    rcases Nat.lt_trichotomy P.idx Q.idx with g | g | g
+    · exact g
+    · rw [g, hq] at hp; cases hp; omega
+    · have := log_mono t hq hp g; omega
+
+theorem recv_pub {st : State} (h : Reach st) {r : RecvEv} (hr : r ∈ st.recvs) :
+    ∃ p, st.log[r.i]? = some p ∧ p.t < r.t ∧ (st.subjOf r.i).getD 0 = p.s := by
+  obtain ⟨p, R, a, b, _⟩ := h.inv.rg.recv_reg r hr
+  exact ⟨p, a, b, by simp [State.subjOf, a]⟩
+
+theorem okA_histOf {st : State} (h : Reach st) : okA (histOf st) = true := by
+  simp only [okA, List.all_eq_true, List.any_eq_true, Bool.and_eq_true, decide_eq_true_eq]
+  intro r' hr'
+  simp only [histOf, List.mem_map] at hr'
+  obtain ⟨r, hr, rfl⟩ := hr'
+  obtain ⟨p, a, b, c⟩ := recv_pub h hr
+  refine ⟨{ s := p.s, idx := r.i, ts := p.t, te := p.t }, mem_histOf_pubs.mpr ⟨p, a, rfl⟩, ⟨rfl, ?_⟩, b⟩
+  exact c.symm
+
+theorem okB_histOf {st : State} (h : Reach st) : okB (histOf st) = true := by
+  simp only [okB, justified, List.all_eq_true, List.any_eq_true, Bool.and_eq_true, decide_eq_true_eq]
+  intro r' hr' P hP e
+  simp only [histOf, List.mem_map] at hr'
+  obtain ⟨r, hr, rfl⟩ := hr'
+  obtain ⟨p0, hp0, eP⟩ := mem_histOf_pubs.mp hP
+  obtain ⟨p, R, a, b, c, d, e1, f, g⟩ := h.inv.rg.recv_reg r hr
+  simp only at e
+  rw [e, a] at hp0; cases hp0
+  refine ⟨{ l := R.l, s := R.s, ts := R.t, te := R.t }, ?_, ⟨⟨⟨d, ?_⟩, f⟩, ?_⟩⟩
+  · simp only [histOf, List.mem_map]; exact ⟨R, c, rfl⟩
+  · simp [State.subjOf, a, e1]
+  · intro U' hU'
+    simp only [histOf, List.mem_map] at hU'
+    obtain ⟨U, hU, rfl⟩ := hU'
+    simp only [decide_eq_true_eq]
+    rintro ⟨u1, u2, u3⟩
+    rw [eP]
+    simp only
+    refine g U hU (u1.trans d.symm) ?_ u3
+    rw [u2]; simp [State.subjOf, a, e1]
+
+theorem okC_histOf {st : State} (h : Reach st) : okC (histOf st) = true := by
+  have nd := h.inv.nd
+  unfold ND at nd
+  simp only [okC, List.all_eq_true, decide_eq_true_eq]
+  intro a ha b hb
+  simp only [histOf, List.mem_map] at ha hb
+  obtain ⟨r, hr, rfl⟩ := ha
+  obtain ⟨r', hr', rfl⟩ := hb
+  rintro ⟨e1, e2⟩
+  simp only at e1 e2
+  rcases pairwise_mem_cases nd hr hr' with g | g | g
+  · rw [g]
+  · exact absurd ⟨e1, e2⟩ g
+  · exact absurd ⟨e1.symm, e2.symm⟩ g
+
+theorem okD_histOf {st : State} (h : Reach st) (hs : st.stale = 0) : okD (histOf st) = true := by
+  have od := h.inv.od hs
+  have ts := h.inv.tm.recvs_sorted
+  have both := od.and ts
+  simp only [okD, List.all_eq_true, decide_eq_true_eq]
+  intro a ha b hb
+  simp only [histOf, List.mem_map] at ha hb
+  obtain ⟨r, hr, rfl⟩ := ha
+  obtain ⟨r', hr', rfl⟩ := hb
+  rintro ⟨e1, e2, e3⟩
+  simp only at e1 e2 e3 ⊢
+  obtain ⟨p, a1, _, c1⟩ := recv_pub h hr
+  obtain ⟨p', a2, _, c2⟩ := recv_pub h hr'
+  have hsub : st.subjOf r.i = st.subjOf r'.i := by
+    rw [c1, c2] at e2
+    simp [State.subjOf, a1, a2, e2]
+  rcases pairwise_mem_cases both hr hr' with g | g | g
+  · rw [g] at e3; omega
+  · exact g.1 e1 hsub
+  · have := g.2; omega
+
+theorem okE_histOf {st : State} (h : Reach st) (hq : Quiescent st) (hd : st.dropped = false) :
+    okE (histOf st) = true := by
+  simp only [okE, stays, List.all_eq_true, List.any_eq_true, Bool.or_eq_true, Bool.not_eq_true',
+    Bool.and_eq_true, decide_eq_true_eq]
+  intro R' hR'
+  simp only [histOf, List.mem_map] at hR'
+  obtain ⟨R, hR, rfl⟩ := hR'
+  by_cases hS : Stays st R
+  · right
+    intro P hP
+    obtain ⟨p, hp, eP⟩ := mem_histOf_pubs.mp hP
+    rw [eP]
+    simp only
+    rintro ⟨e1, e2⟩
+    have := C20_delivery_partial h hq hd hR hS hp e1 e2
+    obtain ⟨r, hr, f1, f2⟩ := mem_received.mp this
+    refine ⟨{ l := r.l, idx := r.i, s := (st.subjOf r.i).getD 0, t := r.t }, ?_, f1, f2⟩
+    simp only [histOf, List.mem_map]; exact ⟨r, hr, rfl⟩
+  · left
+    rw [← Bool.not_eq_true, List.all_eq_true]
+    intro hall
+    apply hS
+    intro U hU e1 e2
+    have := hall { l := U.l, s := U.s, ts := U.t, te := U.t } (by simp only [histOf, List.mem_map]; exact ⟨U, hU, rfl⟩)
+    simp only [decide_eq_true_eq] at this
+    exact this ⟨e1, e2⟩
+
+/-- Every execution without a stale callback is admitted by the spec; `complete` may be claimed for
+quiescent states in which no message was dropped at a full channel. -/
+theorem C20_admits_partial {st : State} (h : Reach st) (hs : st.stale = 0) (complete : Bool)
+    (hc : complete = true → Quiescent st ∧ st.dropped = false) : admits (histOf st) complete = true := by
+  simp only [admits, admitsSafe, Bool.and_eq_true, Bool.or_eq_true, Bool.not_eq_true']
+  refine ⟨⟨⟨⟨⟨okP_histOf h, okA_histOf h⟩, okB_histOf h⟩, okC_histOf h⟩, okD_histOf h hs⟩, ?_⟩
+  cases complete with
+  | false => left; rfl
+  | true => right; exact okE_histOf h (hc rfl).1 (hc rfl).2
+
+
+/-! ### `admits` is monotone under widening of the call intervals -/
+
+/-- Replaces the exact times of the calls by intervals around them (start no later, end no earlier). -/
+structure Widening where
+  reg : HCall → HCall
+  unreg : HCall → HCall
+  pub : HPub → HPub
+  reg_ok : ∀ a, (reg a).l = a.l ∧ (reg a).s = a.s ∧ (reg a).ts ≤ a.ts ∧ a.te ≤ (reg a).te
+  unreg_ok : ∀ a, (unreg a).l = a.l ∧ (unreg a).s = a.s ∧ (unreg a).ts ≤ a.ts ∧ a.te ≤ (unreg a).te
+  pub_ok : ∀ a, (pub a).s = a.s ∧ (pub a).idx = a.idx ∧ (pub a).ts ≤ a.ts ∧ a.te ≤ (pub a).te
+
+def Widening.apply (w : Widening) (h : Hist) : Hist where
+  regs := h.regs.map w.reg
+  unregs := h.unregs.map w.unreg
+  pubs := h.pubs.map w.pub
+  recvs := h.recvs
+
+theorem okP_widen (w : Widening) (h : Hist) (ok : okP h = true) : okP (w.apply h) = true := by
+  simp only [okP, List.all_eq_true, Bool.and_eq_true, decide_eq_true_eq] at ok ⊢
+  intro P' hP' Q' hQ'
+  simp only [Widening.apply, List.mem_map] at hP' hQ'
+  obtain ⟨P, hP, rfl⟩ := hP'
+  obtain ⟨Q, hQ, rfl⟩ := hQ'
+  have a := w.pub_ok P
+  have b := w.pub_ok Q
+  obtain ⟨o1, o2⟩ := ok P hP Q hQ
+  refine ⟨?_, ?_⟩
+  · intro e
+    rw [a.2.1, b.2.1] at e
+    rw [o1 e]
+  · intro e
+    rw [a.2.1, b.2.1]
+    apply o2
+    omega
+
+theorem okA_widen (w : Widening) (h : Hist) (ok : okA h = true) : okA (w.apply h) = true := by
+  simp only [okA, List.all_eq_true, List.any_eq_true, Bool.and_eq_true, decide_eq_true_eq] at ok ⊢
+  intro r hr
+  obtain ⟨P, hP, ⟨e1, e2⟩, e3⟩ := ok r hr
+  have a := w.pub_ok P
+  refine ⟨w.pub P, ?_, ⟨?_, ?_⟩, ?_⟩
+  · simp only [Widening.apply, List.mem_map]; exact ⟨P, hP, rfl⟩
+  · rw [a.2.1]; exact e1
+  · rw [a.1]; exact e2
+  · omega
+
+theorem okB_widen (w : Widening) (h : Hist) (ok : okB h = true) : okB (w.apply h) = true := by
+  simp only [okB, justified, List.all_eq_true, List.any_eq_true, Bool.and_eq_true, decide_eq_true_eq] at ok ⊢
+  intro r hr P' hP' e
+  simp only [Widening.apply, List.mem_map] at hP'
+  obtain ⟨P, hP, rfl⟩ := hP'
+  have a := w.pub_ok P
+  rw [a.2.1] at e
+  obtain ⟨R, hR, ⟨⟨e1, e2⟩, e3⟩, e4⟩ := ok r hr P hP e
+  have b := w.reg_ok R
+  refine ⟨w.reg R, ?_, ⟨⟨?_, ?_⟩, ?_⟩, ?_⟩
+  · simp only [Widening.apply, List.mem_map]; exact ⟨R, hR, rfl⟩
+  · rw [b.1]; exact e1
+  · rw [b.2.1]; exact e2
+  · omega
+  · intro U' hU'
+    simp only [Widening.apply, List.mem_map] at hU'
+    obtain ⟨U, hU, rfl⟩ := hU'
+    have c := w.unreg_ok U
+    have := e4 U hU
+    try simp only [decide_eq_true_eq] at this
+    try simp only [decide_eq_true_eq]
+    rintro ⟨u1, u2, u3⟩
+    have := this ⟨by rw [← c.1]; exact u1, by rw [← c.2.1]; exact u2, by omega⟩
+    omega
+
+theorem okE_widen (w : Widening) (h : Hist) (ok : okE h = true) : okE (w.apply h) = true := by
+  simp only [okE, stays, List.all_eq_true, List.any_eq_true, Bool.or_eq_true, Bool.not_eq_true',
+    Bool.and_eq_true, decide_eq_true_eq] at ok ⊢
+  intro R' hR'
+  simp only [Widening.apply, List.mem_map] at hR'
+  obtain ⟨R, hR, rfl⟩ := hR'
+  have b := w.reg_ok R
+  rcases ok R hR with g | g
+  · left
+    rw [← Bool.not_eq_true, List.all_eq_true] at g ⊢
+    intro hall
+    apply g
+    intro U hU
+    have c := w.unreg_ok U
+    have := hall (w.unreg U) (by simp only [Widening.apply, List.mem_map]; exact ⟨U, hU, rfl⟩)
+    simp only [decide_eq_true_eq] at this ⊢
+    rintro ⟨u1, u2⟩
+    have := this ⟨by rw [c.1, b.1]; exact u1, by rw [c.2.1, b.2.1]; exact u2⟩
+    omega
+  · right
+    intro P' hP'
+    simp only [Widening.apply, List.mem_map] at hP'
+    obtain ⟨P, hP, rfl⟩ := hP'
+    have a := w.pub_ok P
+    rintro ⟨e1, e2⟩
+    obtain ⟨r, hr, f1, f2⟩ := g P hP ⟨by rw [← a.1, e1, b.2.1], by omega⟩
+    exact ⟨r, hr, by rw [b.1]; exact f1, by rw [a.2.1]; exact f2⟩
+
+/-- Evaluating `admits` with timestamps taken *around* the calls is sound: if the history with the exact
+times of the critical sections is admitted, so is every widening of it. -/
+theorem C20_admits_widen (w : Widening) (h : Hist) (c : Bool) (ok : admits h c = true) :
+    admits (w.apply h) c = true := by
+  simp only [admits, admitsSafe, Bool.and_eq_true, Bool.or_eq_true, Bool.not_eq_true'] at ok ⊢
+  obtain ⟨⟨⟨⟨⟨p, a⟩, b⟩, cc⟩, d⟩, e⟩ := ok
+  refine ⟨⟨⟨⟨⟨okP_widen w h p, okA_widen w h a⟩, okB_widen w h b⟩, cc⟩, d⟩, ?_⟩
+  rcases e with e | e
+  · left; exact e
+  · right; exact okE_widen w h e
+
+
+/-- What the harness records: the exact history seen through arbitrary intervals around the calls. -/
+theorem C20_admits_recorded {st : State} (h : Reach st) (hs : st.stale = 0) (complete : Bool)
+    (hc : complete = true → Quiescent st ∧ st.dropped = false) (w : Widening) :
+    admits (w.apply (histOf st)) complete = true :=
+  C20_admits_widen w _ _ (C20_admits_partial h hs complete hc)
+
+/-! ### witnesses and non-vacuity -/
+
+instance (st : State) : Decidable (Quiescent st) := by unfold Quiescent; infer_instance
+instance (st : State) (R : CallEv) : Decidable (Stays st R) := by unfold Stays; infer_instance
+
+theorem reach_of_acts (as : List Act) (h : (runActs State.init as).isSome = true) :
+    Reach ((runActs State.init as).getD State.init) := by
+  cases e : runActs State.init as with
+  | none => rw [e] at h; cases h
+  | some st => exact Reach.init.runActs e
+
+/-- two listeners on subject 0, listener 1 also on subject 5; three publications; everything delivered -/
+def demoActs : List Act :=
+  [.register 1 0, .register 2 0, .register 1 5, .publish 0, .publish 5, .dispatch, .send, .take 0, .snap 0,
+   .pick 0 1, .call 0, .pick 0 2, .call 0, .finish 0, .publish 0, .dispatch, .send, .dispatch, .send, .take 0,
+   .snap 0, .pick 0 2, .call 0, .pick 0 1, .call 0, .finish 0, .take 1, .snap 1, .pick 1 1, .call 1, .finish 1]
+
+def demoState : State := (runActs State.init demoActs).getD State.init
+
+theorem demo_reach : Reach demoState := reach_of_acts demoActs (by decide)
+
+example : demoState.received 1 = [0, 2, 1] ∧ demoState.received 2 = [0, 2] ∧ demoState.stale = 0 ∧
+    demoState.dropped = false ∧ demoState.receivedOn 1 0 = [0, 2] ∧ demoState.receivedOn 1 5 = [1] := by decide
+example : (demoState.received 1).Nodup := C20_no_duplicates demo_reach 1
+example : (demoState.receivedOn 1 0).Pairwise (· < ·) := C20_order_partial demo_reach (by decide) 1 0
+example : demoState.receivedOn 2 5 = [] := C20_other_subjects demo_reach 2 5 (by decide)
+example : Quiescent demoState := by decide
+example : ∃ R, R ∈ demoState.regs ∧ Stays demoState R ∧ R.l = 2 ∧
+    ∃ (i : Nat) (p : PubEv), demoState.log[i]? = some p ∧ p.s = R.s ∧ R.t < p.t :=
+  ⟨{ l := 2, s := 0, t := 1 }, by decide, by decide, rfl, 0, { s := 0, t := 3 }, by decide⟩
+example : admits (histOf demoState) true = true :=
+  C20_admits_partial demo_reach (by decide) true (fun _ => by decide)
+example : (histOf demoState).recvs.length = 5 ∧ (histOf demoState).pubs.length = 3 := by decide
+
+/-- unregister, then a later publication: `C20_nothing_after_unregister` applies to a non-trivial state -/
+def leaveActs : List Act :=
+  [.register 1 0, .register 2 0, .publish 0, .dispatch, .send, .take 0, .snap 0, .pick 0 1, .call 0, .pick 0 2,
+   .call 0, .finish 0, .unregister 1 0, .publish 0, .dispatch, .send, .take 0, .snap 0, .pick 0 2, .call 0, .finish 0]
+
+def leaveState : State := (runActs State.init leaveActs).getD State.init
+theorem leave_reach : Reach leaveState := reach_of_acts leaveActs (by decide)
+example : leaveState.received 1 = [0] ∧ leaveState.received 2 = [0, 1] ∧
+    (∃ U, U ∈ leaveState.unregs ∧ U.l = 1 ∧ (∀ R, R ∈ leaveState.regs → R.l = U.l → R.s = U.s → R.t < U.t) ∧
+      ∃ p : PubEv, leaveState.log[1]? = some p ∧ p.s = U.s ∧ U.t < p.t) :=
+  ⟨by decide, by decide, { l := 1, s := 0, t := 5 }, by decide, by decide, by decide, { s := 0, t := 6 }, by decide⟩
+
+/-- prompt executions exist and deliver -/
+def promptActs : List Act :=
+  [.register 1 0, .publish 0, .publish 0, .dispatch, .send, .dispatch, .send, .take 0, .snap 0, .pick 0 1, .finish 0,
+   .take 0, .snap 0, .pick 0 1, .finish 0]
+def runActsP (st : State) : List Act → Option State
+  | [] => some st
+  | a :: as => match stepP st a with
+    | some st' => runActsP st' as
+    | none => none
+theorem ReachP.runActsP {st st' : State} (h : ReachP st) : ∀ {as : List Act}, runActsP st as = some st' → ReachP st' := by
+  intro as
+  induction as generalizing st with
+  | nil => intro e; simp [Bus.runActsP] at e; exact e ▸ h
+  | cons a as ih =>
+    intro e
+    simp only [Bus.runActsP] at e
+    cases hs : stepP st a with
+    | none => simp [hs] at e
+    | some s1 => rw [hs] at e; exact ih (ReachP.next a h hs) e
+def promptState : State := (runActsP State.init promptActs).getD State.init
+theorem prompt_reach : ReachP promptState := by
+  have h : (runActsP State.init promptActs).isSome = true := by decide
+  unfold promptState
+  cases e : runActsP State.init promptActs with
+  | none => rw [e] at h; cases h
+  | some st => exact ReachP.init.runActsP e
+example : promptState.receivedOn 1 0 = [0, 1] := by decide
+example : (promptState.receivedOn 1 0).Pairwise (· < ·) := C20_order_prompt prompt_reach 1 0
+
+/-- The callback for message 0 is chosen; the listener leaves and joins again (a new subscriber is made); message 1
+reaches it through the new subscriber before the old callback is entered. -/
+def overtakeActs : List Act :=
+  [.register 1 0, .publish 0, .dispatch, .send, .take 0, .snap 0, .pick 0 1,
+   .unregister 1 0, .register 1 0, .publish 0, .dispatch, .send, .send, .take 1, .snap 1, .pick 1 1, .call 1, .call 0]
+
+def overtakeState : State := (runActs State.init overtakeActs).getD State.init
+
+/-- The full order statement (and with it `admits` for every execution) is false of the code as it is. -/
+theorem C20_order_counterexample :
+    Reach overtakeState ∧ overtakeState.received 1 = [1, 0] ∧ overtakeState.stale = 1 ∧
+    ¬ (overtakeState.receivedOn 1 0).Pairwise (· < ·) ∧
+    judge (histOf overtakeState) false = "violated:out-of-order-delivery" :=
+  ⟨reach_of_acts overtakeActs (by decide), by decide, by decide, by decide, by decide⟩
+
+/-- A message published after the registration completed and before the unregistration began, still in
+`incoming` when the listener unregisters, is never delivered to it. -/
+def lostActs : List Act :=
+  [.register 1 0, .publish 0, .unregister 1 0, .dispatch, .send, .take 0, .snap 0, .finish 0, .exit 0]
+
+def lostState : State := (runActs State.init lostActs).getD State.init
+
+theorem C20_delivery_counterexample :
+    Reach lostState ∧ Quiescent lostState ∧ lostState.dropped = false ∧
+    (∃ R U p, R ∈ lostState.regs ∧ U ∈ lostState.unregs ∧ lostState.log[0]? = some p ∧
+      R.l = 1 ∧ U.l = 1 ∧ R.s = p.s ∧ U.s = p.s ∧ R.t < p.t ∧ p.t < U.t) ∧
+    lostState.received 1 = [] :=
+  ⟨reach_of_acts lostActs (by decide), by decide, by decide,
+    ⟨{ l := 1, s := 0, t := 0 }, { l := 1, s := 0, t := 2 }, { s := 0, t := 1 }, by decide⟩, by decide⟩
+
+/-- Below the bound nothing is lost; at the bound the dispatcher drops instead of waiting (`dropped`). -/
+example : ∃ st, Reach st ∧ st.dropped = true ∧ st.disp = chanCap + 2 :=
+  ⟨(runActs State.init ([Act.register 1 0] ++ (List.replicate (chanCap + 2) (Act.publish 0)) ++
+      [.dispatch, .send, .take 0] ++ (List.replicate (chanCap + 1) [Act.dispatch, Act.send]).flatten)).getD State.init,
+    reach_of_acts _ (by decide), by decide, by decide⟩
 
 end SigModel.Bus
